@@ -511,6 +511,7 @@ func colliderCase2(c *vlib.Case, n, queries int) {
 								rw(map[string]interface{}{"lost_segment": fmtSeg2(h.seg), "lost_scale": hx(h.scale)}))
 						} else {
 							c.Undecided("coll2d.ray.lost-hit-at-box-boundary")
+							c.Sample("undecided-lost-ray-hit-2d", 2, rw(map[string]interface{}{"lost_segment": decSeg2(h.seg) + " = " + fmtSeg2(h.seg), "lost_scale": hx(h.scale)}))
 						}
 					}
 				}
